@@ -10,6 +10,13 @@ Binding A : every exported (trace column, weights) with its exact admissible (q1
             median, derived traces) are compared with the spec's summary and with a second model instance.
 Binding B : random larger sample sets (non-integer values, ties, zero weights) through fit(); every fitted and
             derived trace summary is validated by TLC with the same operators (+ canary).
+Binding C : spec/PosteriorSession.tla -- the LIFE of one optimizer in a job of np processes: TLC generates
+            behaviours (built with / without an observation, set_observed, fitted / derived selections switched,
+            fits of n samples); harness/fx_c09session.py replays each on ONE long-lived optimizer -- for np > 1 in
+            np simulated MPI ranks (harness/fx_mpi.py) -- and every reported solution is judged against what the
+            behaviour says it belongs to (observation the spectrum is binned to, summarised parameters, one derived
+            entry per sample in sample order with the sample's own weight: summaries validated by TLC with binding
+            B's operators); the solution reported by the previous fit must stay what it was.
 PolyChord : the layout of PolyChord's .stats / clusters files could not be established offline; its summary part
             is not covered (its callbacks are covered by C06).
 """
@@ -792,6 +799,12 @@ def run(ctx):
         vectors='all 1-D columns of <= %d samples x weights, stacked into 2- and 3-parameter fits (T, log H2O, planet_radius)'
                 % (3 if q else 4),
         traces='random sample sets of 4-24 samples, integer weights 0..9 (sum <= 40), values with ties, 2-3 fitted + 3 derived',
+        sessions='TLC-generated lives of ONE optimizer (spec/PosteriorSession.tla): built with / without an observation, '
+                 'set_observed among 3 observations (two with the same number of bins on different grids, one with more bins), '
+                 'fitted selection {T, H2O} / {planet_radius, T, H2O}, derived selection {logg, avg_T, mu} / {avg_T, mu}, %s; '
+                 'jobs of %s processes (one forked process per rank, collectives pickled through a hub; nestle double), '
+                 'MultiNest double in some one-process lives' %
+                 (('<= 6 steps, fits of 4/5/7 samples', '1, 2, 3') if q else ('<= 8 steps, fits of 4..12 samples', '1..4')),
         weight_totals='the weight vector handed over by the sampler double has total 1, 37/100, the raw integer sum%s '
                       '(vectors) / 1, raw or k/8 with k in 1..200 (traces)' % ('' if q else ', 5/2'))
     ctx.assumptions = [
@@ -802,7 +815,12 @@ def run(ctx):
         'layout read back by the wrapper and by a transcription of PyMultiNest\'s Analyzer (real MultiNest not installed)',
         'MultiNest: mean / MAP are the sampler\'s own statistics (pass-through by index is what is checked)',
         'PolyChord summary part not covered (file layout not reproducible offline)',
-        'oracle for spectra / profiles / derived traces: a second model instance driven through model[param] = value']
+        'oracle for spectra / profiles / derived traces: a second model instance driven through model[param] = value',
+        'sessions: a parameter taken out of the fit is fixed at a definite value through model[param] = value (left alone it '
+        'keeps whatever sample the last post-processing step of that process evaluated, which differs from rank to rank); '
+        'the observation a stored spectrum belongs to, the summarised parameters and the sample order are those of the '
+        'TLC-generated behaviour; simulated MPI = harness/fx_mpi.py + the mpi4py double (allreduce of lists = concatenation '
+        'in rank order)']
     ctx.check_spec('exhaustive-1d', 'MC_Posterior', 'MC_Posterior_1d_%s.cfg' % ctx.tier, workers=8 if q else 16)
     ctx.check_spec('exhaustive-2d', 'MC_Posterior', 'MC_Posterior_2d_%s.cfg' % ctx.tier, need_actions=('Summarise',))
     ctx.exhaustive = True
